@@ -59,6 +59,18 @@ def _call(s, g):
         return s.refined_AAFT_surrogates(g[1], "true_spectrum")
     if kind == "rboth":
         return s.refined_AAFT_surrogates(g[1], "both")
+    if kind == "norm":
+        s.normalize_original_data()
+        return None
+    if kind == "tts":
+        from pyunicorn.timeseries.surrogates import Surrogates
+        fn = {"corr": Surrogates.correlated_noise_surrogates,
+              "white": Surrogates.white_noise_surrogates,
+              "aaft": Surrogates.AAFT_surrogates}[g[1]]
+        s.test_threshold_significance(
+            fn, Surrogates.test_pearson_correlation, realizations=2,
+            n_bins=8)
+        return None
     if kind == "twin":
         _, dim, tau, thr, md = g
         out = s.twin_surrogates(dim, tau, thr, min_dist=md)
@@ -88,24 +100,30 @@ def _exc_class(e):
 
 def _run_history(data, hist, np_src, py_src):
     """Fresh object, the calls of `hist` in order; returns
-    [(generator, 'ok'|'exc', value, (log_from, log_to))]."""
+    [(generator, ('ok', value)|('exc', ..), (log_from, log_to), reference)]
+    where reference is None (the case's data) or, after the data have been
+    normalised in place (`norm`, `tts`), the data as the library holds them
+    then: the promises of later calls refer to those."""
     from pyunicorn.timeseries import surrogates as smod
     from pyunicorn.timeseries._ext import numerics as text
     s = smod.Surrogates(np.array(data, dtype=float), silence_level=3)
     old_np, old_py = smod.random, text.random
     smod.random, text.random = np_src, py_src
     obs = []
+    cur = None      # the data as the library reports them after norm / tts
     try:
         for g in hist:
-            a = len(np_src.log) if hasattr(np_src, "log") else 0
+            a = len(np_src.log)
             try:
                 out = ("ok", _freeze(_call(s, g)))
             except (Horizon, ref.SeamError, ref.ScriptEnd):
                 raise
             except Exception as e:   # noqa  (the library raises many kinds)
                 out = ("exc", _exc_class(e), repr(e)[:200])
-            b = len(np_src.log) if hasattr(np_src, "log") else 0
-            obs.append((tuple(g), out, (a, b)))
+            b = len(np_src.log)
+            if g[0] in ("norm", "tts"):
+                cur = np.array(s.original_data, dtype=float, copy=True)
+            obs.append((tuple(g), out, (a, b), cur))
     finally:
         smod.random, text.random = old_np, old_py
     return obs
@@ -154,6 +172,8 @@ def _defect(data, g, out):
         for i in range(N):
             states = ref.embed(data[i], dim, tau)
             n_emb = len(states)
+            if ref.on_threshold(states, thr):
+                return None     # <=/< convention not fixed by the property
             R = ref.recurrence_sup(states, thr, strict=False)
             want = ref.twins_oracle(R, md)
             try:
@@ -187,7 +207,7 @@ def _key(g, cls, where):
 
 def _sig_hist(obs):
     h = hashlib.sha1()
-    for g, out, _ in obs:
+    for g, out, _, _r in obs:
         if out[0] == "exc":
             h.update(("exc" + out[1]).encode())
         else:
@@ -202,7 +222,7 @@ def _sig_hist(obs):
 def _same_obs(a, b):
     if len(a) != len(b):
         return False
-    for (g1, o1, _), (g2, o2, _) in zip(a, b):
+    for (g1, o1, _, _r1), (g2, o2, _, _r2) in zip(a, b):
         if g1 != g2 or o1[0] != o2[0]:
             return False
         if o1[0] == "exc":
@@ -220,13 +240,41 @@ def _same_obs(a, b):
     return True
 
 
+def gen_rows(spec):
+    """Deterministic larger arrays: {"gen": name, "N": rows, "n": samples}."""
+    N, n = spec["N"], spec["n"]
+    t = np.arange(n, dtype=float)
+    rows = []
+    for i in range(N):
+        if spec["gen"] == "generic":      # distinct generic values
+            x = np.sin(0.37 * t + i) + 0.5 * np.cos(1.13 * t * (i + 1)) \
+                + 0.01 * t
+            x = np.round(x, 9)
+        elif spec["gen"] == "coarse":     # integer valued, many ties
+            x = np.round(3 * np.sin(0.2 * t + i))
+        elif spec["gen"] == "saw":        # 17 symbols
+            x = (t + 3 * i) % 17
+        elif spec["gen"] == "p4":         # period 4 over {0,1,3}
+            x = np.array([0.0, 1.0, 3.0, 1.0])[(np.arange(n) + i) % 4]
+        else:
+            raise ValueError(spec)
+        rows.append([float(v) for v in x])
+    return rows
+
+
 def fam_hist(case):
-    data = [[float(v) for v in row] for row in case["data"]]
+    if isinstance(case["data"], dict):
+        data = gen_rows(case["data"])
+        label = case["data"]
+    else:
+        data = [[float(v) for v in row] for row in case["data"]]
+        label = data
     hist = [tuple(g) for g in case["hist"]]
     seed = int(case.get("seed", 0))
     bound = int(case.get("bound", 1))
     N, n = len(data), len(data[0])
-    horizon = (4 * n * N + 8 * N + 8) * len(hist)
+    horizon = (4 * n * N + 8 * N + 8) * (len(hist) + 4 * sum(
+        1 for g in hist if g[0] == "tts"))
     logs = {}
     snap = ref.unmodelled_snapshot()
     for g in hist:
@@ -247,8 +295,17 @@ def fam_hist(case):
     def judge(obs):
         out = []
         failed = set()
-        for pos, (g, o, (a, b)) in enumerate(obs):
-            d = _defect(data, g, o)
+        for pos, (g, o, (a, b), cur) in enumerate(obs):
+            if g[0] in ("norm", "tts"):
+                if o[0] == "exc":
+                    out.append(("Surrogates.%s:raises:%s" % (
+                        "normalize_original_data" if g[0] == "norm" else
+                        "test_threshold_significance", o[1]),
+                        "call %d of history %s: %s" % (pos + 1, hist, o[2]),
+                        o[2], "no exception"))
+                continue
+            rdata = data if cur is None else cur.tolist()
+            d = _defect(rdata, g, o)
             if d is None:
                 continue
             if g in failed:
@@ -259,8 +316,8 @@ def fam_hist(case):
                 # control: the same answers given to a fresh object
                 script = ref.Scripted(logs["last"][a:b])
                 try:
-                    c = _run_history(data, [g], script, script)
-                    dc = _defect(data, g, c[0][1])
+                    c = _run_history(rdata, [g], script, script)
+                    dc = _defect(rdata, g, c[0][1])
                     if dc is None or dc[0] != d[0]:
                         where = "after-history"
                 except ref.ScriptEnd:
@@ -268,7 +325,7 @@ def fam_hist(case):
             cls, text, observed, expected = d
             out.append((_key(g, cls, where),
                         "call %d of history %s on data %s: %s" % (
-                            pos + 1, [list(x) for x in hist], data, text),
+                            pos + 1, [list(x) for x in hist], label, text),
                         observed, expected))
         return out
 
@@ -464,7 +521,251 @@ def fam_rp(case):
             "traces": r["traces"]}
 
 
-FAMILIES = {"hist": fam_hist, "rp": fam_rp}
+# ---------------------------------------------------------------------------
+# scale: twins on a few hundred states (neighbour counts beyond 128 / 256)
+
+
+def scale_series(name, n):
+    t = np.arange(n)
+    if name == "alt":                  # period 2
+        x = t % 2
+    elif name == "p4":                 # period 4 over {0,1,3}
+        x = np.array([0, 1, 3, 1])[t % 4]
+    elif name == "p3":                 # period 3 over {0,1,3}
+        x = np.array([0, 1, 3])[t % 3]
+    elif name == "coarse":             # coarse-grained sine, values -2..2
+        x = np.round(2 * np.sin(2 * np.pi * t / 20.0))
+    elif name == "blocks":             # long runs crossing 128 and 256
+        x = np.where(t < int(0.47 * n), 0, np.where(t < int(0.97 * n), 1, 3))
+    else:
+        raise ValueError(name)
+    return [float(v) for v in x]
+
+
+def fam_scale_twin(case):
+    name, n = case["series"]
+    x = scale_series(name, n)
+    dim, tau, thr, md = case["dim"], case["tau"], case["thr"], case["md"]
+    which, calls = case["which"], int(case.get("calls", 1))
+    seed = int(case.get("seed", 0))
+    bound = int(case.get("bound", 0))
+    snap = ref.unmodelled_snapshot()
+    S = ref.embed_np(x, dim, tau)
+    n_emb = len(S)
+    horizon = 4 * n * calls * 2 + 8
+    desc = "series %s(n=%d) dim=%d tau=%d threshold=%s min_dist=%d" % (
+        name, n, dim, tau, thr, md)
+    R_or, on = ref.recurrence_sup_np(S, thr, strict=(which == "rp"))
+    if on:
+        return {"viol": [], "evals": 0, "trivial": True, "excluded": {
+            "state pair exactly at the recurrence threshold (<=/< "
+            "convention not fixed by the property)": 1}}
+    want_sur = ref.twins_np(R_or, md)
+    stats = {"states_with_128_or_more_neighbours":
+             int((R_or.sum(axis=1) >= 128).sum()),
+             "longest_twin_list": max(len(t) for t in want_sur)}
+
+    def run_sur(cr):
+        from pyunicorn.timeseries import surrogates as smod
+        from pyunicorn.timeseries._ext import numerics as text
+        s = smod.Surrogates(np.array([x], dtype=float), silence_level=3)
+        old_np, old_py = smod.random, text.random
+        smod.random = ref.NumpyRandom(cr, seed)
+        text.random = ref.PyRandom(cr, seed + 1)
+        obs = []
+        try:
+            for _ in range(calls):
+                try:
+                    sur = np.array(s.twin_surrogates(dim, tau, thr,
+                                                     min_dist=md), copy=True)
+                    obs.append(("ok", sur, _freeze(s.twins(thr, md))))
+                except (Horizon, ref.SeamError):
+                    raise
+                except Exception as e:   # noqa
+                    obs.append(("exc", _exc_class(e), repr(e)[:200]))
+        finally:
+            smod.random, text.random = old_np, old_py
+        return obs
+
+    def judge_sur(obs):
+        out = []
+        for c, o in enumerate(obs):
+            where = "fresh" if c == 0 else "after-history"
+            if o[0] == "exc":
+                out.append(("Surrogates.twin_surrogates:raises:%s:%s" % (
+                    o[1], where), "%s, call %d: %s" % (desc, c + 1, o[2]),
+                    o[2], "surrogates"))
+                break
+            sur, tw = o[1], o[2]
+            try:
+                got = [sorted(int(k) for k in t) for t in tw[0]]
+            except Exception:   # noqa
+                got = None
+            if got != want_sur:
+                bad = None if got is None or len(got) != n_emb else next(
+                    i for i in range(n_emb) if got[i] != want_sur[i])
+                out.append(("Surrogates.twins:value", "%s, call %d: twins "
+                            "differ from the states with identical "
+                            "recurrence rows and |i-j|>min_dist (first at "
+                            "state %s)" % (desc, c + 1, bad),
+                            None if bad is None else got[bad],
+                            None if bad is None else want_sur[bad]))
+                break
+            if sur.ndim != 2 or sur.shape[0] != 1 or sur.shape[1] < 1:
+                out.append(("Surrogates.twin_surrogates:shape:" + where,
+                            "%s: shape %s" % (desc, sur.shape), sur.shape,
+                            "(1, time)"))
+                break
+            d = ref.walk_defect_np(sur[0], np.array(x[:n_emb]), want_sur)
+            if d:
+                out.append(("Surrogates.twin_surrogates:walk-%s:%s" % (
+                    d[0], where), "%s, call %d: %s" % (desc, c + 1, d[1]),
+                    sur[0][:40], "a walk over original states"))
+                break
+        return out
+
+    def run_rp(cr):
+        obs = _rp_run({"series": x, "dim": dim, "tau": tau, "thr": thr,
+                       "md": md, "nsur": 2}, cr, seed)
+        return obs
+
+    def judge_rp(obs):
+        R = np.asarray(obs["R"])
+        want = ref.twins_np(R, md)
+        out = []
+        t = obs["twins"]
+        if t[0] == "exc":
+            return [("RecurrencePlot.twins:raises:" + t[1], desc + ": " +
+                     t[2], t[2], "twin lists")]
+        try:
+            got = [sorted(int(k) for k in q) for q in t[1][:len(R)]]
+        except Exception:   # noqa
+            got = None
+        if got != want:
+            bad = None if got is None or len(got) != len(R) else next(
+                i for i in range(len(R)) if got[i] != want[i])
+            return [("RecurrencePlot.twins:value", "%s: twins differ from "
+                     "the states with identical rows of R and |i-j|>min_dist "
+                     "(first at state %s)" % (desc, bad),
+                     None if bad is None else got[bad],
+                     None if bad is None else want[bad])]
+        sr = obs["sur"]
+        if sr[0] == "exc":
+            return [("RecurrencePlot.twin_surrogates:raises:" + sr[1],
+                     desc + ": " + sr[2], sr[2], "surrogate trajectories")]
+        sur = np.asarray(sr[1])
+        if sur.ndim != 3 or sur.shape[0] != 2 or sur.shape[1] < 1:
+            return [("RecurrencePlot.twin_surrogates:shape", "%s: shape %s"
+                     % (desc, sur.shape), sur.shape,
+                     "(n_surrogates, time, dimension)")]
+        for i in range(sur.shape[0]):
+            d = ref.walk_defect_np(sur[i], obs["E"], want)
+            if d:
+                out.append(("RecurrencePlot.twin_surrogates:walk-" + d[0],
+                            desc + ": " + d[1], sur[i][:40].tolist(),
+                            "a walk over original states"))
+                break
+        return out
+
+    def sig(obs):
+        h = hashlib.sha1()
+        items = obs if which == "sur" else [obs.get("twins"), obs.get("sur")]
+        for o in items:
+            for a in o[1:]:
+                h.update(a.tobytes() if isinstance(a, np.ndarray)
+                         else repr(a).encode())
+        return h.digest()[:8]
+
+    run_fn, judge = (run_sur, judge_sur) if which == "sur" else (
+        run_rp, judge_rp)
+    r = ref.drive(run_fn, judge, sig, bound, horizon,
+                  choices=case.get("choices"))
+    if case.get("choices") is None:
+        ref.selftest_replay(run_fn, r["sample"], horizon,
+                            lambda a, b: sig(a) == sig(b))
+    stats.update(ref.unmodelled_stats(snap))
+    stats.update({"cut": r["cut"], "max_deviations": bound,
+                  "distinct_outputs": len(r["sigs"]),
+                  "cases_at_bound_%d" % bound: 1})
+    return {"viol": [V(v["key"], v["msg"], v["observed"], v["expected"])
+                     for v in r["viol"].values()],
+            "evals": r["states"] * calls,
+            "sig": hashlib.sha1(b"".join(sorted(r["sigs"]))).hexdigest(),
+            "trivial": False, "stats": stats,
+            "states": r["states"], "transitions": r["transitions"],
+            "traces": r["traces"]}
+
+
+def fam_scale(case):
+    return fam_scale_twin(case) if case.get("kind") == "twin" \
+        else fam_hist(case)
+
+
+def scale_cases(tier, seed):
+    thorough = tier == "thorough"
+    cases = []
+    # 1. twins and twin walks on 130-300 states
+    series = [("alt", 150), ("p4", 209), ("alt", 257), ("p4", 257),
+              ("p3", 300), ("blocks", 257), ("coarse", 260)]
+    for (name, n) in series:
+        for (dim, tau) in ((1, 1), (2, 1)):
+            for thr in (0.5, 1.5, 2.5):
+                for md in (0, 7, 130):
+                    if not thorough and (md == 7 and thr == 2.5):
+                        continue
+                    for which in ("sur", "rp"):
+                        b = 1 if (n == 150 and md == 130 and (
+                            thorough or thr == 0.5)) else 0
+                        cases.append({
+                            "kind": "twin", "series": [name, n], "dim": dim,
+                            "tau": tau, "thr": thr, "md": md, "which": which,
+                            "calls": 4 if which == "sur" else 1, "bound": b,
+                            "seed": seed})
+
+    def hist(data, h, b):
+        cases.append({"data": data, "hist": [list(g) for g in h],
+                      "bound": b, "seed": seed})
+    four = lambda g: [g] * 4     # noqa: E731  third and fourth call as well
+    # 2. spectral / rank generators on 129, 256, 257 samples and 17 rows
+    for n in (129, 256, 257):
+        for gen in ("generic", "coarse"):
+            d = {"gen": gen, "N": 1, "n": n}
+            deep = 1 if (gen == "generic" and (thorough or n != 256)) else 0
+            hist(d, four(("corr",)), deep)
+            hist(d, four(("rspec", 2)), deep)
+            hist(d, four(("aaft",)), deep if thorough else 0)
+            hist(d, four(("ramp", 2)), 0)
+            hist(d, four(("white",)), 1)
+            hist(d, [("rboth", 1), ("corr",), ("rboth", 3), ("white",)], 0)
+        hist({"gen": "generic", "N": 2, "n": n}, four(("corr",)), 0)
+        hist({"gen": "saw", "N": 2, "n": n}, four(("rspec", 2)), 0)
+    for n in (9, 64):
+        for gen in ("generic", "saw"):
+            d = {"gen": gen, "N": 17, "n": n}
+            for g in (("corr",), ("aaft",), ("rspec", 2), ("white",)):
+                hist(d, four(g), 1 if (n == 9 and (thorough or
+                                                   g[0] == "corr")) else 0)
+    # 3. normalisation / significance test between generator calls
+    tw = ("twin", 1, 1, 0.5, 0)
+    norm_hists = [
+        [("corr",), ("norm",), ("corr",), ("rspec", 2), ("corr",)],
+        [("rspec", 1), ("tts", "corr"), ("rspec", 1), ("corr",)],
+        [("white",), ("norm",), ("aaft",), ("ramp", 2), ("norm",),
+         ("white",)],
+        [("aaft",), ("tts", "aaft"), ("ramp", 2), ("rspec", 2)],
+        [tw, ("norm",), tw, ("tts", "white"), tw, ("corr",)]]
+    for d in ({"gen": "p4", "N": 1, "n": 16}, {"gen": "p4", "N": 2, "n": 16},
+              {"gen": "generic", "N": 2, "n": 9},
+              {"gen": "coarse", "N": 1, "n": 129},
+              {"gen": "generic", "N": 17, "n": 9}):
+        for h in norm_hists:
+            if h[0] == tw and d["gen"] != "p4":
+                continue
+            hist(d, h, 1 if d["n"] <= 16 else 0)
+    return cases
+
+
+FAMILIES = {"hist": fam_hist, "rp": fam_rp, "scale": fam_scale}
 
 
 # ---------------------------------------------------------------------------
@@ -495,9 +796,10 @@ def small_arrays(tier):
     """(N=1 arrays, N=2 arrays) with n_time in {4,5} over ALPHABET.
     N=1: every row (quick: one row per class under cyclic shift and time
     reversal).  N=2: (r, r') with r' the row `off` places after r in the
-    list used (cyclically), so every listed row occurs in both positions:
-    quick: bracelet representatives, off=7; thorough: every length-4 row,
-    off=7, and the length-5 bracelet representatives, off in {7, 19}."""
+    list used (cyclically).  thorough: every length-4 row, off=7, and the
+    length-5 bracelet representatives, off in {7, 19} (every listed row
+    occurs in both positions); quick: every second bracelet representative
+    with the one 7 places later (every representative occurs once)."""
     one, two = [], []
     for n in (4, 5):
         B = bracelets(n)
@@ -507,7 +809,9 @@ def small_arrays(tier):
             for off in (7, 19):
                 two += [[B[i], B[(i + off) % len(B)]] for i in range(len(B))]
         else:
-            two += [[R[i], R[(i + 7) % len(R)]] for i in range(len(R))]
+            step = 1 if tier == "thorough" else 2
+            two += [[R[i], R[(i + 7) % len(R)]]
+                    for i in range(0, len(R), step)]
     return one, two
 
 
@@ -620,6 +924,11 @@ def run(ctx):
                               "thr": thr, "md": md, "nsur": nsur,
                               "bound": 2 if sr in reps else 1, "seed": seed})
     ctx.explore("rp", cases, desc="RecurrencePlot.twins/twin_surrogates")
+    ctx.explore("scale", scale_cases(ctx.tier, seed), chunk=1,
+                desc="larger structured inputs: twins on 150-300 states "
+                "(neighbour counts beyond 128/256), generators on 129/256/"
+                "257 samples and 17 rows with four calls per object, "
+                "normalisation / significance test between calls")
     ctx.rule = (
         "hist: data = N=1 arrays of length 4 and 5 over {0,1,3} (%s), N=2 "
         "arrays (r, r') with r' 7 (thorough, length 5: 7 and 19) places "
@@ -641,6 +950,9 @@ def run(ctx):
         "distinct outputs); distinct = distinct sets of outputs." % (
             "every row" if thorough else "one row per class under cyclic "
             "shift and time reversal: 21 + 39 rows", len(LONG)))
+    ctx.notes["unmodelled_rng_functions"] = \
+        ref.unmodelled_names(ctx.stats) or \
+        "none (every draw of the generators went through a choice point)"
     ctx.notes.update({
         "deviation_bound": (
             "1 for all cases; 2 for the twin sweep and RecurrencePlot on "
